@@ -30,7 +30,7 @@ ASSUMPTIONS = [
 ]
 PROBES = ["tens of thousands of distinct symbols", "tokenized again under settings.STRICT", "token of 32 K bytes or more", "very long token", "refill inside string escape", "refill inside hex name escape", "refill inside number", "eof flush produced token"]
 TIERS = {
-    "quick": {"batches": 16, "runs": 25000, "budget_s": 40, "kmax": 9, "sweep_len": 3},
+    "quick": {"batches": 16, "runs": 25000, "budget_s": 90, "kmax": 9, "sweep_len": 3},
     "thorough": {"batches": 64, "runs": 40000, "budget_s": 900, "kmax": 33, "sweep_len": 4},
 }
 EXHAUSTIVE = {}
